@@ -37,7 +37,7 @@ def scene_for(chk, MX, multi, wind):
 # the exports (files go to the replay directory and are overwritten)
 EXPORTS = {
     "export_stl": lambda sc, n: sc.export_stl(filename=common.os.path.join(common.REPLAYS, "c08_export.stl"), section_resolution=6),
-    "export_vtk": lambda sc, n: sc.export_vtk(filename=common.os.path.join(common.REPLAYS, "c08_export.vtk"), section_resolution=6),
+    "export_vtk": lambda sc, n: sc.export_vtk(filename=common.os.path.join(common.REPLAYS, "c08_export.vtk"), section_resolution=6, aircraft=n),   # (one aircraft per file)
     "export_pylot_model": lambda sc, n: sc.export_pylot_model(filename=common.os.path.join(common.REPLAYS, "c08_pylot.json")),
     "distributions_degrees": lambda sc, n: sc.distributions(radians=False),
     "distributions_file": lambda sc, n: sc.distributions(filename=common.os.path.join(common.REPLAYS, "c08_dist.csv"), radians=False),
@@ -54,6 +54,10 @@ def side_effect_sweep(chk, MX, n):
         wind = rng.random() < 0.6
         sd, acs = scene_for(chk, MX, multi, wind)
         done += 1
+        if "orient" in an:
+            # (a banked, moderately pitched attitude: the trim converges and Earth-fixed and body-fixed components differ)
+            for nm_, ac_, st_, cs_ in acs:
+                st_["orientation"] = [round(rng.uniform(10, 30) * rng.choice([-1, 1]), 2), round(rng.uniform(-8, 8), 2), round(rng.uniform(-170, 170), 2)]
         if done % 2 == 0:
             # keys of other tools that share the aircraft file (Pylot's travel limit of a control) are carried along, not acted upon: the
             # commanded deflections below exceed it
